@@ -190,8 +190,9 @@ def _stratum(tag, s):
     p, m = s["p"], s["m"]
     cur = p["infos"][p["inf"]] if p["inf"] < len(p["infos"]) else {}
     h = p["hops"][p["hf"]] if p["hf"] < len(p["hops"]) else {}
+    n = p["hops"][p["hf"] + 1] if p["hf"] + 1 < len(p["hops"]) else {}      # the hop a cross-over leads to
     return (tag, m["disp"], m["why"], p["kind"], p["via"], tuple(p["seg"]), p["hf"], p["inf"], cur.get("cons"),
-            cur.get("peer"), h.get("in"), h.get("eg"))
+            cur.get("peer"), h.get("in"), h.get("eg"), n.get("in"), n.get("eg"))
 
 
 def select(tagged, seed, budget, prefer=(), stratum=None):
